@@ -2,16 +2,19 @@
 
 World: two REAL Dilators -> `dilate(expected_subprotocols=…)` (through the real
 `_DeferredWormhole.dilate` and `Boss.dilate` pass-throughs) -> real Manager, Inbound, Outbound,
-SubchannelDemultiplex, SubChannel, DilatedWormhole endpoints.  Only the Connector / L2 connection
-are stand-ins (C10–C12 own them): a fake connection per side collects the records the Manager
-sends; the case decides when the next record in flight is delivered (through the real
-encode_record/parse_record) to the peer's real `Manager.got_record`.
+SubchannelDemultiplex, SubChannel, DilatedWormhole endpoints, and — per connection generation — the
+real Connector (its `start()`, i.e. listening/dialling, is a no-op) building real
+DilatedConnectionProtocols (framing + a toy Noise) whose transports are in-memory pipes of frames.
+The case decides which frames arrive when: one record at a time, or a burst sharing the chunk with
+the Leader's KCM (parked until the Connector's accept turn calls select()); one direction can be
+black-holed (its ACKs never arrive) before the link is dropped; the reconnect goes through the real
+rx_RECONNECT / rx_RECONNECTING inputs and Outbound's re-send of everything un-acked.
 """
 import itertools
 import types
 from unittest import mock
 
-from twisted.internet.interfaces import IHalfCloseableProtocol, IProtocol
+from twisted.internet.interfaces import IHalfCloseableProtocol, IProtocol, ITransport, IConsumer
 from twisted.internet.task import Clock, Cooperator
 from twisted.python import log as txlog
 from zope.interface import alsoProvides, implementer
@@ -19,7 +22,8 @@ from zope.interface import alsoProvides, implementer
 from wormhole import wormhole as wormhole_mod
 from wormhole import _boss
 from wormhole._dilation import manager as dmanager
-from wormhole._dilation.connection import Ack, Close, Data, Open, encode_record, parse_record
+from wormhole._dilation import connector as dconnector
+from wormhole._dilation.connection import Ack, Close, Data, KCM, Open, encode_record, parse_record
 from wormhole._dilation.manager import DILATION_VERSIONS, Dilator
 from wormhole._dilation.roles import LEADER
 from wormhole._interfaces import ISend, ITerminator
@@ -27,7 +31,7 @@ from wormhole.eventual import EventualQueue
 from wormhole.util import dict_to_bytes
 
 from ..core import Result
-from ..fakes import FakeTransport, hx
+from ..fakes import ToyNoise, hx
 from ..util import automat_state
 
 ID = "C13"
@@ -38,16 +42,19 @@ import os as _os
 _EXTRACT = _os.path.join(_os.path.dirname(_os.path.dirname(_os.path.dirname(_os.path.abspath(__file__)))), "tools", "extract.py")
 if "connect_allocates_after_main_channel" in open(_EXTRACT).read():
     PROP_MODULES.append("WV.Props.C13_Alloc")
+if "parked_queue_is_fifo" in open(_EXTRACT).read():
+    PROP_MODULES.append("WV.Props.C13_Link")
 TRUSTED = ["L4 record delivery between the two Managers is exactly-once and in order (C10); the harness pipe is a FIFO "
            "(a re-sent old record is an explicit `dup` operation)",
-           "Connector / DilatedConnectionProtocol are stand-ins (a fake connection object collecting records)",
+           "TCP/hints/Noise: Connector.start() is a no-op, the harness creates the one negotiated link per generation "
+           "(real DilatedConnectionProtocol over an in-memory frame pipe, toy Noise); loss points are frame boundaries",
            "application protocol callbacks do not call back into their transport re-entrantly",
            "OneShotObserver/EventualQueue fire waiting connect()/listen() calls in FIFO order (the harness takes the order "
            "from the real queue)"]
 RULE = ("two real Managers (leader+follower) built through dilate(expected_subprotocols=unset|[]|[a]|[a,b]); random and "
         "small-scope exhaustive interleavings of connect/listen/write/loseConnection/loseWriteConnection on both sides "
         "and in-order record delivery, <=4 subchannels, names incl. non-ASCII, half-closeable and normal protocols, "
-        "calls issued right after dilate() (before the peer's PLEASE / role choice) and before the connection exists, by either side, with both sides opening subchannels; adversarial stream adds injected OPEN/DATA/CLOSE with arbitrary "
+        "(re)connections with bursts of the Leader's records sharing the KCM chunk (first connection and reconnects), one direction black-holed before a drop (lost ACKs => re-sent records), activity while the link is down; calls issued right after dilate() (before the peer's PLEASE / role choice) and before the connection exists, by either side, with both sides opening subchannels; adversarial stream adds injected OPEN/DATA/CLOSE with arbitrary "
         "scid/seq and re-delivered old records; non-trivial = at least one subchannel reached a protocol or was refused; "
         "distinct = distinct canonical output traces")
 
@@ -61,29 +68,27 @@ def hs(s):
 # ---------------------------------------------------------------------------
 # the world
 
-class FakeConnector:
-    def __init__(self, *a, **kw):
-        pass
-
-    def start(self):
-        pass
-
-    def stop(self):
-        pass
-
-    def got_hints(self, h):
-        pass
-
-
-class FakeConn:
-    _description = "fake"
+@implementer(ITransport, IConsumer)
+class Wire:
+    """the transport of one real DilatedConnectionProtocol: every write is one frame (or the prologue), kept with
+    the record it carries (None for prologue / handshake / the follower's KCM) in the owner's outgoing pipe"""
 
     def __init__(self, side):
         self.side = side
-        self.transport = FakeTransport()
+        self.tag = None
+        self.producer = None
 
-    def send_record(self, r):
-        self.side.sent(r)
+    def write(self, data):
+        self.side.pipe.append([self.tag, bytes(data)])
+
+    def loseConnection(self):
+        self.side.wants_drop = True
+
+    def registerProducer(self, p, streaming):
+        self.producer = p
+
+    def unregisterProducer(self):
+        self.producer = None
 
     def pauseProducing(self):
         pass
@@ -91,8 +96,20 @@ class FakeConn:
     def resumeProducing(self):
         pass
 
-    def disconnect(self):
-        pass
+    def getPeer(self):
+        return "peer"
+
+    def getHost(self):
+        return "host"
+
+
+def _no_start(self):
+    """Connector.start() would listen on TCP and publish hints; the harness supplies the link itself"""
+
+
+def link_patches():
+    return mock.patch.object(dconnector.Connector, "start", _no_start), \
+        mock.patch.object(dconnector, "build_noise", ToyNoise)
 
 
 @implementer(IProtocol)
@@ -150,9 +167,12 @@ class Side:
         self.label = label
         self.effects = []
         self.protos = []
-        self.flight = []        # sequenced records sent, in order (never popped; `delivered` counts)
-        self.delivered = 0
-        self.acks = []          # acks waiting to be handed to the peer after the current operation
+        self.flight = []        # sequenced records queued for sending, in order (what the peer must see, once each)
+        self.pipe = []          # frames written to the current connection and not yet delivered: [record|None, bytes]
+        self.proto = None       # the current real DilatedConnectionProtocol
+        self.hold = False       # frames from this side are black-holed for now (not delivered until released)
+        self.rx_new = 0         # how many distinct records of the peer have reached this side (processed or parked)
+        self.wants_drop = False
         self.peer = None
         self.clock = Clock()
         self.eq = EventualQueue(self.clock)
@@ -168,23 +188,62 @@ class Side:
         boss.dilate = lambda *a, **kw: _boss.Boss.dilate(boss, *a, **kw)
         w = types.SimpleNamespace(_enable_dilate=True, _boss=boss)
         kw = {} if expected is None else {"expected_subprotocols": list(expected)}
-        with mock.patch.object(dmanager, "make_side", return_value=my_side), \
-                mock.patch.object(dmanager, "Connector", FakeConnector):
+        with mock.patch.object(dmanager, "make_side", return_value=my_side):
             self.api = wormhole_mod._DeferredWormhole.dilate(w, **kw)
             self.dil.got_key(b"\x00" * 32)
             self.dil.got_wormhole_versions({"can-dilate": list(DILATION_VERSIONS)})
         self.role_error = None
         self.their_side = their_side
         self.mgr = self.dil._manager
-        self.conn = FakeConn(self)
+        # observation points (harness process only): a record is "sent" by the application's call when Outbound
+        # queues it (it may go out much later, or several times); an Ack when it is really handed to a connection
+        ob = self.mgr._outbound
+        orig_q, orig_s = ob.queue_and_send_record, ob.send_if_connected
+
+        def queue_and_send_record(r):
+            self.sent(r)
+            return orig_q(r)
+
+        def send_if_connected(r):
+            if isinstance(r, Ack) and ob._connection:
+                self.eff(f"ack {r.resp_seqnum}")
+            return orig_s(r)
+        ob.queue_and_send_record, ob.send_if_connected = queue_and_send_record, send_if_connected
 
     def please(self):
-        """the peer's PLEASE arrives: rx_PLEASE -> choose_role (+ a stand-in Connector is started)"""
-        with mock.patch.object(dmanager, "Connector", FakeConnector):
+        """the peer's PLEASE arrives: rx_PLEASE -> choose_role -> a real Connector (its start() is a no-op)"""
+        p1, p2 = link_patches()
+        with p1, p2:
             try:
                 self.dil.received_dilate(dict_to_bytes({"type": "please", "side": self.their_side, "use-version": "ged"}))
             except ValueError:
                 self.role_error = "ValueError"
+
+    def mailbox(self, typ):
+        """a `reconnect` / `reconnecting` message arrives through the mailbox"""
+        p1, p2 = link_patches()
+        with p1, p2:
+            self.mgr.received_dilation_message(dict_to_bytes({"type": typ}))
+
+    def new_protocol(self):
+        """one negotiated TCP connection: the real Connector builds the real DilatedConnectionProtocol"""
+        p1, p2 = link_patches()
+        with p1, p2:
+            p = self.mgr._connector.build_protocol(None, "link")
+        t = Wire(self)
+        orig = p.send_record
+
+        def send_record(r):
+            t.tag = r
+            try:
+                return orig(r)
+            finally:
+                t.tag = None
+        p.send_record = send_record
+        self.proto = p
+        self.pipe = []
+        p.makeConnection(t)
+        return p
 
     # -- called by the real code
     def eff(self, s):
@@ -200,23 +259,19 @@ class Side:
         elif isinstance(r, Close):
             self.eff(f"tx-close {r.seqnum} {r.scid}")
             self.flight.append(r)
-        elif isinstance(r, Ack):
-            self.eff(f"ack {r.resp_seqnum}")
-            self.acks.append(r)
-        # Ping/Pong: not part of this property
-
-    def establish(self):
-        self.mgr.connector_connection_made(self.conn)
 
     def summary(self):
         opens = " ".join(f"{scid}:{automat_state(sc)}" for scid, sc in self.mgr._inbound._open_subchannels.items())
         pend = " ".join(f"{hs(n)}:{len(q)}" for n, q in self.mgr._subprotocol_factories._pending_opens.items())
-        return f"open=[{opens}] pend=[{pend}]"
+        park = len(self.proto._inbound_record_queue) if self.proto is not None else 0
+        return f"open=[{opens}] pend=[{pend}] park={park}"
 
-    def flush_acks(self):
-        acks, self.acks = self.acks, []
-        for a in acks:
-            self.peer.mgr.got_record(parse_record(encode_record(a)))
+    def connected(self):
+        return self.proto is not None and self.mgr._connection is self.proto
+
+    def feed(self, frames):
+        """the peer's frames arrive here as ONE chunk"""
+        self.proto.dataReceived(b"".join(f[1] for f in frames))
 
 
 CURRENT = [None]
@@ -256,6 +311,18 @@ def op_line(op):
     raise ValueError(op)
 
 
+def rec_tokens(r):
+    if isinstance(r, Open):
+        return f"open {r.seqnum} {r.scid} {hs(r.subprotocol)}"
+    if isinstance(r, Data):
+        return f"data {r.seqnum} {r.scid} {hx(r.data)}"
+    return f"close {r.seqnum} {r.scid}"
+
+
+def sequenced(r):
+    return isinstance(r, (Open, Data, Close))
+
+
 class Run:
     """executes one case on the real objects, producing model lines / expected outputs and the
     observation record the oracle works on"""
@@ -263,20 +330,29 @@ class Run:
     def __init__(self, case):
         self.case = case
         self.lines, self.expect = [], []
-        self.steps = []   # (op, side_label, effects_of_step, error, summary)
+        # (op, side_label, effects_of_step, error, summary, arrivals): arrivals = the peer's records that reached
+        # this side's Manager for the first time in this step (each must be handled exactly once, in this order)
+        self.steps = []
         self.sides = {}
+        self.waiting = {"A": [], "B": []}
+        self.fifo_ok = True
 
     def side_of(self, op):
         if op[0] == "deliver":
             return self.sides["B" if op[1] == "A" else "A"]
         return self.sides[op[1]]
 
-    def record(self, op, side, mark, err):
+    def emit(self, line, op, side, mark, err, arrivals=(), park=None):
         effs = side.effects[mark:]
         summ = side.summary()
-        self.lines.append(op_line(op))
+        if park is not None:
+            summ = summ[:summ.rindex("park=")] + f"park={park}"
+        self.lines.append(line)
         self.expect.append("; ".join(effs + ([err] if err else [])) + " | " + summ)
-        self.steps.append((op, side.label, effs, err, summ))
+        self.steps.append((op, side.label, effs, err, summ, list(arrivals)))
+
+    def record(self, op, side, mark, err):
+        self.emit(op_line(op), op, side, mark, err)
 
     def api_call(self, op):
         """issues connect/listen; returns a holder whose .done/.err are filled when it has run"""
@@ -301,15 +377,150 @@ class Run:
         d.addCallbacks(ok, bad)
         return h
 
+    # ---- the link
+
+    def classify(self, dst, r):
+        """a sequenced record of the peer reaches `dst`: the next new one, or one it has seen before (a re-send)"""
+        if r.seqnum == dst.rx_new:
+            dst.rx_new += 1
+            return True
+        return False
+
+    def turns(self, side):
+        """the side's eventual queue, one callback at a time: each waiting connect()/listen() is its own step, and
+        so is the Connector's accept turn (select() + connector_connection_made)"""
+        CURRENT[0] = side
+        queue = self.waiting[side.label]
+        while side.eq._calls:
+            calls, side.eq._calls = side.eq._calls, []
+            for f, args, kw in calls:
+                mark = len(side.effects)
+                before = [h.done for _, h in queue]
+                was = side.mgr._connection
+                parked = list(side.proto._inbound_record_queue) if side.proto is not None else []
+                err = None
+                try:
+                    f(*args, **kw)
+                except Exception as e:   # EventualQueue._turn would log it and go on
+                    err = type(e).__name__
+                if side.proto is not None and side.mgr._connection is side.proto and was is not side.proto:
+                    self.emit(f"{side.label} select", ["select", side.label], side, mark, err,
+                              getattr(side, "parked_new", []))
+                    side.parked_new = []
+                    continue
+                now = [i for i, (_, h) in enumerate(queue) if h.done and not before[i]]
+                if now:
+                    op, h = queue[now[0]]
+                    self.record(op, side, mark, h.err)
+                    self.fifo_ok = self.fifo_ok and now[0] == sum(before)
+        self.waiting[side.label] = [(op, h) for op, h in queue if not h.done]
+
+    def autoflush(self):
+        """frames that are not subchannel records (acks, pings, handshake) at the head of a pipe travel at once,
+        unless that direction is black-holed"""
+        again = True
+        while again:
+            again = False
+            for lab in ("A", "B"):
+                src = self.sides[lab]
+                dst = src.peer
+                while src.pipe and not src.hold and not sequenced(src.pipe[0][0]) and dst.proto is not None:
+                    CURRENT[0] = dst
+                    dst.feed([src.pipe.pop(0)])
+                    again = True
+
+    def link(self, burst):
+        a, b = self.sides["A"], self.sides["B"]
+        if a.proto is not None or b.proto is not None:
+            return
+        L, F = (a, b) if a.mgr._my_role == LEADER else (b, a)
+        if getattr(self, "linked_once", False):
+            # the Leader noticed the loss and said `reconnect`; the Follower answers `reconnecting`
+            F.mailbox("reconnect")
+            L.mailbox("reconnecting")
+        self.linked_once = True
+        for s in (L, F):
+            s.hold = False
+            s.new_protocol()
+        # prologues, Noise handshakes, the Follower's KCM
+        moved = True
+        while moved:
+            moved = False
+            for src in (L, F):
+                while src.pipe:
+                    moved = True
+                    CURRENT[0] = src.peer
+                    src.peer.feed([src.pipe.pop(0)])
+        # the Leader's Connector takes its eventual turn: select(), KCM, connector_connection_made (which flushes
+        # everything queued or un-acked); then whatever was waiting for the main channel
+        self.turns(L)
+        # the Follower gets the KCM and the first `burst` subchannel records in the SAME chunk
+        chunk, n = [], 0
+        seen_kcm = False
+        while L.pipe and (not seen_kcm or n < burst):
+            fr = L.pipe.pop(0)
+            chunk.append(fr)
+            if isinstance(fr[0], KCM):
+                seen_kcm = True
+            elif sequenced(fr[0]):
+                n += 1
+        while L.pipe and seen_kcm and not sequenced(L.pipe[0][0]):
+            chunk.append(L.pipe.pop(0))
+        CURRENT[0] = F
+        mark = len(F.effects)
+        F.feed(chunk)
+        # one line per parked record, in arrival order (nothing observable happens yet)
+        F.parked_new = []
+        for idx, r in enumerate(list(F.proto._inbound_record_queue)):
+            if self.classify(F, r):
+                F.parked_new.append(r)
+                line = f"park {L.label}"
+            else:
+                line = f"{F.label} parkrx {rec_tokens(r)}"
+            self.emit(line, ["park", F.label], F, mark, None, park=idx + 1)
+            mark = len(F.effects)
+        self.turns(F)
+        self.autoflush()
+
+    def drop(self):
+        a, b = self.sides["A"], self.sides["B"]
+        if a.proto is None and b.proto is None:
+            return
+        for s in (a, b):
+            CURRENT[0] = s
+            mark = len(s.effects)
+            p, s.proto = s.proto, None
+            s.pipe = []
+            s.wants_drop = False
+            if p is not None:
+                p.connectionLost()
+                s.eq.flush_sync()
+            self.emit(f"{s.label} lost", ["lost", s.label], s, mark, None)
+
     def do(self, op):
+        k = op[0]
+        if k == "drop":
+            return self.drop()
+        if k == "link":
+            return self.link(op[1])
+        if k in ("hold", "release"):
+            self.sides[op[1]].hold = (k == "hold")
+            if k == "release":
+                self.autoflush()
+            return
         side = self.side_of(op)
         CURRENT[0] = side
         mark = len(side.effects)
         err = None
-        k = op[0]
+        line = op_line(op)
+        arrivals = []
         try:
             if k in ("connect", "listen"):
                 h = self.api_call(op)
+                if not h.done and not side.mgr._made_first_connection:
+                    # no connection yet: the call waits for the main channel like the early ones
+                    self.waiting[side.label].append((op, h))
+                    return
                 side.eq.flush_sync()
                 assert h.done, "endpoint call did not complete"
                 err = h.err
@@ -327,14 +538,19 @@ class Run:
                         t.loseWriteConnection()
             elif k == "deliver":
                 src = self.sides[op[1]]
-                if src.delivered >= len(src.flight):
-                    self.lines.append(op_line(op))
-                    self.expect.append("empty")
-                    self.steps.append((op, side.label, [], "empty", ""))
-                    return
-                r = src.flight[src.delivered]
-                src.delivered += 1
-                side.mgr.got_record(parse_record(encode_record(r)))
+                if side.proto is None or not any(sequenced(f[0]) for f in src.pipe):
+                    return   # nothing in flight: not an event
+                while True:
+                    fr = src.pipe.pop(0)
+                    if sequenced(fr[0]):
+                        r = fr[0]
+                        if self.classify(side, r):
+                            arrivals = [r]
+                        else:
+                            line = f"{side.label} rx {rec_tokens(r)}"
+                        side.feed([fr])
+                        break
+                    side.feed([fr])
             elif k == "rx":
                 rk = op[2]
                 if rk == "open":
@@ -352,9 +568,10 @@ class Run:
             err = "AssertionError"
         except Exception as e:
             err = type(e).__name__
-        self.record(op, side, mark, err)
-        side.flush_acks()
-        side.peer.flush_acks()
+        self.emit(line, op, side, mark, err, arrivals)
+        self.autoflush()
+        if any(s.wants_drop for s in self.sides.values()):
+            self.drop()
 
     def go(self):
         c = self.case
@@ -365,7 +582,6 @@ class Run:
         self.lines.append(f"new {c['sa']} {c['sb']} {exp_token(c['expA'])} {exp_token(c['expB'])}")
         # calls made right after w.dilate(), before the peer's PLEASE has been processed (no role yet):
         # `dw = w.dilate(); dw.connector_for(name).connect(f)` -- they wait for the main channel too
-        waiting = {"A": [], "B": []}
         sync_failed = []
         for op in c.get("early", []):
             if op[0] in ("connect", "listen"):
@@ -373,7 +589,7 @@ class Run:
                 if h.done:   # synchronous failure (empty name)
                     sync_failed.append((op, h))
                 else:
-                    waiting[op[1]].append((op, h))
+                    self.waiting[op[1]].append((op, h))
         for lab in c.get("please_order", "AB"):
             self.sides[lab].please()
         if a.role_error or b.role_error:
@@ -393,28 +609,9 @@ class Run:
                     side = self.sides[op[1]]
                     self.record(op, side, len(side.effects), h.err)
                 else:
-                    waiting[op[1]].append((op, h))
-        for lab in ("A", "B"):
-            self.sides[lab].establish()
-        for lab in ("A", "B"):
-            side = self.sides[lab]
-            CURRENT[0] = side
-            queue = list(waiting[lab])
-            # run the eventual queue one callback at a time so that every waiting call is its own step
-            while side.eq._calls:
-                calls, side.eq._calls = side.eq._calls, []
-                for f, args, kw in calls:
-                    mark = len(side.effects)
-                    before = [h.done for _, h in queue]
-                    f(*args, **kw)
-                    now = [i for i, (_, h) in enumerate(queue) if h.done and not before[i]]
-                    if now:
-                        op, h = queue[now[0]]
-                        self.record(op, side, mark, h.err)
-                        self.fifo_ok = getattr(self, "fifo_ok", True) and now[0] == sum(before)
-            assert all(h.done for _, h in queue), "a waiting endpoint call never ran"
-            side.flush_acks()
-            side.peer.flush_acks()
+                    self.waiting[op[1]].append((op, h))
+        # the first connection; `burst` of the Leader's records share the chunk with its KCM
+        self.link(c.get("burst", 0))
         for op in c["ops"]:
             self.do(op)
 
@@ -468,7 +665,7 @@ def oracle(run):
 
     # ---- write after close is an error and sends nothing
     closed_w = set()   # (side, pid) whose write side is closed
-    for op, lab, effs, err, summ in run.steps:
+    for op, lab, effs, err, summ, _arr in run.steps:
         k = op[0]
         for e in effs:   # a completed close of a normal protocol closes its write side as well
             if e.startswith("lost "):
@@ -481,23 +678,18 @@ def oracle(run):
         if k in ("lose", "losew") and err is None and (lab, op[2]) in closed_w and False:
             pass
 
-    # ---- an OPEN for a subchannel id that is in use never builds a second protocol
+    # ---- an OPEN for a subchannel id that is in use never builds a second protocol; a re-sent record (one this
+    #      side has already handled) changes nothing
     live = {"A": set(), "B": set()}
-    ndeliv = {"A": 0, "B": 0}
-    wire = {lab: [e for e in s.effects if e.split()[0] in ("tx-open", "tx-data", "tx-close")] for lab, s in sides.items()}
-    for op, lab, effs, err, summ in run.steps:
-        if err == "empty":
-            continue
-        scid = None
+    for op, lab, effs, err, summ, arr in run.steps:
+        scids = [r.scid for r in arr if isinstance(r, Open)]
         if op[0] == "rx" and op[2] == "open":
-            scid = op[4]
-        elif op[0] == "deliver":
-            n = ndeliv[op[1]]
-            ndeliv[op[1]] += 1
-            if n < len(wire[op[1]]) and wire[op[1]][n].startswith("tx-open "):
-                scid = int(wire[op[1]][n].split()[2])
-        if scid is not None and scid in live[lab] and any(e.startswith("build ") for e in effs):
-            viol.append(("open-exactly-once", f"{lab}: OPEN for subchannel {scid}, which is in use, built another protocol: {effs}"))
+            scids = [op[4]]
+        nb = sum(1 for e in effs if e.startswith("build "))
+        if any(sc in live[lab] for sc in scids) and nb >= len([sc for sc in scids if sc not in live[lab]]) + 1:
+            viol.append(("open-exactly-once", f"{lab}: OPEN for subchannel {scids}, in use, built another protocol: {effs}"))
+        if op[0] == "deliver" and not arr and any(not e.startswith(("ack ", "log ")) for e in effs):
+            viol.append(("resent-record-accepted", f"{lab}: a record it had already handled was re-sent and caused {effs}"))
         live[lab] = {int(t.split(":")[0]) for t in summ[summ.index("open=[") + 6:summ.index("]")].split()}
 
     if not honest:
@@ -513,8 +705,7 @@ def oracle(run):
         arrived = {}                 # scid -> list of expected read-side callbacks (kind, payload)
         refused = set()
         names = {}
-        nflight = 0
-        for op, slab, effs, err, summ in run.steps:
+        for op, slab, effs, err, summ, arr in run.steps:
             if slab != lab:
                 continue
             builds = [(int(e.split()[1]), e.split()[2]) for e in effs if e.startswith("build ")]
@@ -537,46 +728,47 @@ def oracle(run):
                 for pid, _ in builds:
                     arrived.setdefault(s.protos[pid].transport._scid, [])
                 continue
-            if op[0] != "deliver" or err == "empty":
-                if builds:
-                    viol.append(("open-exactly-once", f"{lab} {op[0]} built protocols {builds}"))
-                continue
-            r = other.flight[nflight]
-            nflight += 1
-            if isinstance(r, Open):
-                name = r.subprotocol
-                names[r.scid] = name
-                arrived.setdefault(r.scid, [])
-                if name in listeners:
-                    if len(builds) != 1 or builds[0][1] != hs(name) or s.protos[builds[0][0]].transport._scid != r.scid:
-                        viol.append(("open-exactly-once", f"{lab} has a listener for {name!r} but OPEN {r.scid} built {builds}"))
-                elif exp is not None and name not in exp:
-                    tags.append("open:refused")
-                    refused.add(r.scid)
-                    sent_close = [e for e in effs if e.startswith("tx-close ") and int(e.split()[2]) == r.scid]
-                    held = f"{r.scid}:" in summ or builds
-                    if not sent_close or held:
-                        viol.append(("unexpected-refused", f"{lab} declared expected_subprotocols={exp} and has no listener for {name!r}: "
-                                                           f"OPEN {r.scid} must be refused with CLOSE and dropped, got {effs} | {summ}"))
-                else:
-                    tags.append("open:pending")
-                    pending.setdefault(name, []).append(r.scid)
-                    if f"{r.scid}:unconnected" not in summ.split("pend=")[0] or \
-                            f"{hs(name)}:{len(pending[name])}" not in summ.split("pend=")[1]:
-                        viol.append(("open-exactly-once", f"{lab} has no listener for {name!r}: OPEN {r.scid} must be held "
-                                                          f"pending, got {effs} | {summ}"))
-                    if builds:
-                        viol.append(("open-exactly-once", f"{lab} has no listener for {name!r} but OPEN {r.scid} built {builds}"))
-            elif isinstance(r, Data):
-                if r.scid in arrived and r.scid not in refused:
-                    arrived[r.scid].append(("data", hx(r.data)))
-                if builds:
-                    viol.append(("open-exactly-once", f"{lab} DATA built protocols {builds}"))
-            elif isinstance(r, Close):
-                if r.scid in arrived and r.scid not in refused:
-                    arrived[r.scid].append(("close", None))
-                if builds:
-                    viol.append(("open-exactly-once", f"{lab} CLOSE built protocols {builds}"))
+            # the peer's records that reach this side's Manager in this step (one on a delivery; the parked burst on
+            # select()), each exactly once, in the order sent
+            todo = list(builds)
+            touched = set()
+            for r in arr:
+                if isinstance(r, Open):
+                    name = r.subprotocol
+                    names[r.scid] = name
+                    arrived.setdefault(r.scid, [])
+                    if name in listeners:
+                        b = todo.pop(0) if todo else None
+                        if b is None or b[1] != hs(name) or s.protos[b[0]].transport._scid != r.scid:
+                            viol.append(("open-exactly-once", f"{lab} has a listener for {name!r} but OPEN {r.scid} built {b} "
+                                                              f"(step {op[0]}: {effs})"))
+                    elif exp is not None and name not in exp:
+                        tags.append("open:refused")
+                        refused.add(r.scid)
+                        sent_close = [e for e in effs if e.startswith("tx-close ") and int(e.split()[2]) == r.scid]
+                        held = any(t.split(":")[0] == str(r.scid)
+                                   for t in summ[summ.index("open=[") + 6:summ.index("]")].split())
+                        if not sent_close or held:
+                            viol.append(("unexpected-refused", f"{lab} declared expected_subprotocols={exp} and has no listener for {name!r}: "
+                                                               f"OPEN {r.scid} must be refused with CLOSE and dropped, got {effs} | {summ}"))
+                    else:
+                        tags.append("open:pending")
+                        pending.setdefault(name, []).append(r.scid)
+                        touched.add(name)
+                        if f"{r.scid}:unconnected" not in summ[summ.index("open=[") + 6:summ.index("]")].split():
+                            viol.append(("open-exactly-once", f"{lab} has no listener for {name!r}: OPEN {r.scid} must be held "
+                                                              f"pending, got {effs} | {summ}"))
+                elif isinstance(r, Data):
+                    if r.scid in arrived and r.scid not in refused:
+                        arrived[r.scid].append(("data", hx(r.data)))
+                elif isinstance(r, Close):
+                    if r.scid in arrived and r.scid not in refused:
+                        arrived[r.scid].append(("close", None))
+            for name in touched:
+                if f"{hs(name)}:{len(pending[name])}" not in summ.split("pend=")[1]:
+                    viol.append(("open-exactly-once", f"{lab}: {len(pending[name])} OPEN(s) for {name!r} must be pending, got {summ}"))
+            if todo:
+                viol.append(("open-exactly-once", f"{lab} {op[0]} built protocols {todo} nobody asked for ({effs})"))
         # reads of every protocol = the records that arrived for its subchannel, in order
         for p in s.protos:
             scid = p.transport._scid
@@ -595,7 +787,7 @@ def oracle(run):
                 viol.append(("connectionLost-once", f"{lab} protocol {p.pid} kind {p.kind} was told {closes[0][0]}"))
         # a successful half-close tells the protocol exactly once, at once
         told = set()
-        for op, slab, effs, err, summ in run.steps:
+        for op, slab, effs, err, summ, _arr in run.steps:
             if slab != lab:
                 continue
             if op[0] == "losew" and err is None:
@@ -613,9 +805,9 @@ def oracle(run):
 # ---------------------------------------------------------------------------
 # cases
 
-def mkcase(ops, pre=(), expA=None, expB=None, sa="b1", sb="a0", early=(), please_order="AB"):
+def mkcase(ops, pre=(), expA=None, expB=None, sa="b1", sb="a0", early=(), please_order="AB", burst=0):
     return dict(sa=sa, sb=sb, expA=expA, expB=expB, early=[list(o) for o in early], please_order=please_order,
-                pre=[list(o) for o in pre], ops=[list(o) for o in ops])
+                pre=[list(o) for o in pre], burst=burst, ops=[list(o) for o in ops])
 
 
 CORPUS = [
@@ -677,6 +869,30 @@ CORPUS = [
            pre=[("connect", "B", "a", "half")]),
     mkcase([("deliver", "A"), ("deliver", "B"), ("listen", "A", "a", "full"), ("listen", "B", "a", "full")],
            early=[("connect", "A", "a", "full"), ("connect", "B", "a", "full")]),
+    # --- (re)connections: real DilatedConnectionProtocol + the Connector's accept turn
+    # the Leader connect()ed twice before dilation; both OPENs share the chunk with its KCM and are parked
+    mkcase([("deliver", "A"), ("write", "A", 0, "01"), ("write", "A", 1, "02"), ("deliver", "A"), ("deliver", "A")],
+           early=[("connect", "A", "a", "full"), ("connect", "A", "a", "full")], pre=[("listen", "B", "a", "full")], burst=2),
+    # the Leader opens, writes and closes while the link is down: OPEN+DATA+CLOSE arrive with the new KCM
+    mkcase([("listen", "B", "a", "full"), ("drop",), ("connect", "A", "a", "full"), ("write", "A", 0, "07"), ("lose", "A", 0),
+            ("link", 3), ("deliver", "B"), ("deliver", "A"), ("deliver", "B")]),
+    # several chunks written offline on an existing subchannel; only part of the burst shares the KCM's chunk
+    mkcase([("listen", "B", "a", "full"), ("connect", "A", "a", "full"), ("deliver", "A"), ("drop",),
+            ("write", "A", 0, "01"), ("write", "A", 0, "02"), ("write", "A", 0, "03"), ("write", "B", 0, "04"), ("link", 2),
+            ("deliver", "A"), ("deliver", "B"), ("lose", "B", 0), ("deliver", "B"), ("deliver", "A")]),
+    # ACKs black-holed, then the link drops: what was processed is re-sent and must be recognised as old
+    mkcase([("listen", "B", "a", "full"), ("connect", "A", "a", "full"), ("write", "A", 0, "07"), ("hold", "B"),
+            ("deliver", "A"), ("deliver", "A"), ("lose", "A", 0), ("deliver", "A"), ("drop",), ("link", 0),
+            ("deliver", "A"), ("deliver", "A"), ("deliver", "A"), ("deliver", "B"), ("deliver", "A")]),
+    # the same, the re-sent records coming back as a burst with the KCM; follower-initiated traffic too
+    mkcase([("listen", "B", "a", "half"), ("listen", "A", "b", "full"), ("connect", "A", "a", "half"), ("connect", "B", "b", "full"),
+            ("write", "A", 0, "07"), ("hold", "B"), ("hold", "A"), ("deliver", "A"), ("deliver", "A"), ("deliver", "B"),
+            ("losew", "A", 0), ("drop",), ("write", "B", 0, "08"), ("link", 3), ("deliver", "A"), ("deliver", "B"),
+            ("deliver", "B"), ("deliver", "A"), ("deliver", "B")]),
+    # a second loss right after a reconnect
+    mkcase([("listen", "B", "a", "full"), ("connect", "A", "a", "full"), ("drop",), ("write", "A", 0, "01"), ("link", 1),
+            ("drop",), ("write", "A", 0, "02"), ("lose", "A", 0), ("link", 4), ("deliver", "A"), ("deliver", "B"), ("deliver", "A")],
+           sa="a0", sb="b1"),
     # a peer that opens one of OUR ids: the next local connect() raises AssertionError (open_exactly_once, case 3)
     mkcase([("rx", "A", "open", 0, 1, "a"), ("connect", "A", "b", "full"), ("connect", "A", "b", "full"),
             ("listen", "A", "a", "full"), ("write", "A", 0, "01")]),
@@ -733,6 +949,27 @@ def rand_case(rng, adversarial=False, nops=None):
         else:
             if not adversarial:
                 c["ops"].append(["deliver", side])
+    if not adversarial and rng.random() < 0.45:
+        # connection losses: acks (or everything) of one direction black-holed, drop, activity while down, reconnect
+        # with a burst sharing the KCM's chunk
+        cut = rng.randrange(0, len(c["ops"]) + 1)
+        tail = c["ops"][cut:]
+        c["ops"] = c["ops"][:cut]
+        for _ in range(rng.choice([1, 1, 2])):
+            if rng.random() < 0.6:
+                c["ops"].append(["hold", rng.choice("AB")])
+                c["ops"] += [["deliver", rng.choice("AB")] for _ in range(rng.choice([0, 1, 2, 4]))]
+            c["ops"].append(["drop"])
+            k = rng.choice([0, 1, 2, 3])
+            c["ops"] += tail[:k]
+            tail = tail[k:]
+            c["ops"].append(["link", rng.choice([0, 1, 2, 3, 5])])
+            k = rng.choice([1, 3, 6])
+            c["ops"] += tail[:k]
+            tail = tail[k:]
+        c["ops"] += tail
+    if rng.random() < 0.3:
+        c["burst"] = rng.choice([1, 2, 3])
     if not adversarial:
         # let everything in flight arrive (the close handshakes complete)
         c["ops"] += [["deliver", "A"], ["deliver", "B"]] * rng.choice([0, 3, 8])
@@ -771,6 +1008,30 @@ def phases(maxn):
                              pre=[("connect", "A", "a", "full")] * pa + [("connect", "B", "a", "full")] * pb)
 
 
+def reconnects(full):
+    """small-scope enumeration around one loss: which records were delivered and whose acks got through before the
+    drop, what is done while the link is down, how many records share the chunk with the new KCM; both roles"""
+    offline = [[], [("write", "A", 0, "0b")], [("write", "A", 0, "0b"), ("lose", "A", 0)],
+               [("connect", "A", "a", "full"), ("write", "A", 1, "0c"), ("lose", "A", 1)], [("lose", "B", 0), ("write", "A", 0, "0d")]]
+    for sa, sb in ((("b1", "a0"), ("a0", "b1")) if full else (("b1", "a0"),)):
+        for hold in (None, "A", "B"):
+            for ndel in range(0, 4):
+                for off in offline:
+                    for burst in ((0, 1, 2, 3, 4) if full else (0, 2, 3)):
+                        ops = [("listen", "B", "a", "full"), ("connect", "A", "a", "full"), ("write", "A", 0, "0a")]
+                        if hold:
+                            ops.append(("hold", hold))
+                        ops += [("deliver", "A")] * ndel + [("lose", "A", 0)] * (ndel == 3) + [("deliver", "A")] * (ndel == 3)
+                        ops += [("drop",)] + off + [("link", burst)] + [("deliver", "A"), ("deliver", "B")] * 5
+                        yield mkcase(ops, sa=sa, sb=sb)
+    for burst in range(0, 4):
+        for ea in range(0, 4):
+            yield mkcase([("deliver", "A"), ("deliver", "A"), ("deliver", "A")], burst=burst, pre=[("listen", "B", "a", "full")],
+                         early=[("connect", "A", "a", "full")] * ea)
+            yield mkcase([("deliver", "B"), ("deliver", "B"), ("deliver", "B")], burst=burst, pre=[("listen", "B", "a", "full")],
+                         early=[("connect", "A", "a", "full")] * ea, sa="a0", sb="b1")
+
+
 def cases(rng, tier):
     out = [dict(c) for c in CORPUS]
     n = 1 if tier == "quick" else 25
@@ -781,9 +1042,11 @@ def cases(rng, tier):
     if tier == "thorough":
         out += list(exhaustive(5))
         out += list(phases(3))
+        out += list(reconnects(True))
     else:
         out += list(exhaustive(2))
         out += list(phases(1))
+        out += list(reconnects(False))
     return out
 
 
@@ -798,7 +1061,7 @@ def run_case(case):
     viol, tags = oracle(run)
     tags = list(tags)
     tags.append("exp:" + exp_token(case["expA"]).replace(",", "+") + "/" + exp_token(case["expB"]).replace(",", "+"))
-    for op, lab, effs, err, summ in run.steps:
+    for op, lab, effs, err, summ, _arr in run.steps:
         tags.append("op:" + op[0])
         if err:
             tags.append("err:" + err)
